@@ -158,6 +158,7 @@ pub fn partition_graph<C: Consumer>(init: &C, stream: &[u8], full: bool, mut tol
     init.fingerprint(&mut fp);
     levels[0].insert(hash128(&fp), Node { c: init.clone(), obs: Vec::new(), errored: false, cuts: Vec::new(), obs_before_last_call: 0 });
     let mut stats = PartStats { edges: 0, nodes: 1, max_nodes_per_offset: 1, errored: false };
+    let mut first_error: Option<(usize, Vec<usize>, String)> = None;
     // which call lengths are taken from an offset: all (full) or all near message/chunk-agnostic marks
     for n in 0..l {
         let nodes: Vec<Node<C>> = std::mem::take(&mut levels[n]).into_values().collect();
@@ -191,6 +192,9 @@ pub fn partition_graph<C: Consumer>(init: &C, stream: &[u8], full: bool, mut tol
                 cuts.push(m);
                 if err.is_some() {
                     stats.errored = true;
+                    if first_error.is_none() {
+                        first_error = Some((m, cuts.clone(), err.clone().unwrap_or_default()));
+                    }
                 }
                 // compare with what other partitions observed at this offset
                 if let Some(other) = levels[m].values().next() {
@@ -226,6 +230,17 @@ pub fn partition_graph<C: Consumer>(init: &C, stream: &[u8], full: bool, mut tol
                     }
                 }
             }
+        }
+    }
+    // some partitions report an error although delivering the whole stream in other ways completes
+    // without one (or vice versa): the error does not belong to the stream but to the cut
+    let completes_somewhere = levels[l].values().any(|n| !n.errored);
+    if completes_somewhere {
+        if let Some((m, cuts, err)) = first_error {
+            let good = levels[l].values().find(|n| !n.errored).unwrap();
+            let parts = json!({"stream": hex(stream), "failing_partition_call_ends": cuts, "error_after_bytes": m, "error": err,
+                "complete_partition_call_ends": good.cuts, "observations_of_complete_partition": good.obs});
+            return PartOutcome::Differ("error-depends-on-the-cut".into(), format!("a partition whose calls end at {:?} reports an error ({}) after {} bytes, while the partition {:?} consumes all {} bytes without error", cuts, err.chars().take(120).collect::<String>(), m, good.cuts, l), parts, stats);
         }
     }
     PartOutcome::Ok(stats)
